@@ -407,3 +407,57 @@ Definition run_with (judge : scn -> sexp) (line : list Z) : list Z :=
     end
   | None => print_sexp (L [sym "badcase"; sym "parse"])
   end.
+
+(* ---------- the spec's view of connection i: protocol mode by the reply class of what the
+   panel sends first, the timed bytes after that first segment (relative to accept), the
+   instant at which the scenario cuts the connection (cancellation), and whether the reply
+   fits the probe buffer ---------- *)
+Record cview : Type := mkCV { cv_bin : bool; cv_tb : list (Z * Z); cv_cut : Z; cv_ok : bool }.
+
+Definition conn_view (s : scn) (i : nat) : option cview :=
+  match nth_error (s_conns s) i, nth_error (obs_accs (s_obs s)) i with
+  | Some c, Some acc =>
+    let sc := script_of c in
+    let fix drop_first (l : script) : option (Z * bytes * script) :=
+      match l with
+      | Seg t (b :: bs) :: r => Some (t, b :: bs, r)
+      | Seg _ [] :: r => drop_first r
+      | _ => None
+      end in
+    match drop_first sc with
+    | Some (t, first, rest) =>
+      let rc := classify_reply (Some (t, first)) in
+      let bin := match rc with RcAck | RcOtherFrame => true | _ => false end in
+      Some (mkCV bin (tbytes_tr rest) (s_cancel s - acc) (zlen first <=? 1000))
+    | None => Some (mkCV false [] (s_cancel s - acc) true)
+    end
+  | _, _ => None
+  end.
+
+Definition walk_fuel (tb : list (Z * Z)) : nat := nat_of_z (zlen_tr tb 0 / 4 + 2).
+
+(* expected deliveries of connection i as oracle values, with completion times, and the
+   first fault of the stream if any *)
+Definition expected (s : scn) (v : cview) : list (bytes * Z) * option (Z * Z) :=
+  if cv_bin v then
+    let (g, f) := walk_bin (walk_fuel (cv_tb v)) (cv_tb v) in
+    (map (fun x => (lookup (s_orcb s) (fst x), snd x)) g, f)
+  else
+    (map (fun x => (lookup (s_orca s) (strip (fst x)), snd x)) (walk_lines (cv_tb v)), None).
+
+Definition spec_fail (tag : string) (i : nat) (detail : list sexp) : sexp :=
+  L [sym "specfail"; sym tag; L (I (Z.of_nat i) :: detail)].
+
+(* delivery clause shared by C08, C10 and C11: observed deliveries of connection i are exactly
+   the complete frames / lines before the cut (up to the margin), in order, nothing else *)
+Definition delivery_clause (s : scn) (i : nat) (g : grp) (v : cview) : bool :=
+  let (e, f) := expected s v in
+  let cut := match f with Some (tf, _) => Z.min (cv_cut v) (tf + 2 * margin) | None => cv_cut v end in
+  let (must, may) := must_may e cut in
+  deliveries_ok (map snd (g_dlv g)) must may.
+
+Fixpoint for_conns {A} (f : nat -> grp -> option A) (i : nat) (gs : list grp) : option A :=
+  match gs with
+  | [] => None
+  | g :: r => match f i g with Some x => Some x | None => for_conns f (Datatypes.S i) r end
+  end.
